@@ -42,6 +42,9 @@ var (
 		{"run", "ctx"},
 		{"vmcall", "vmopt"}, {"vmcall", "risoropt"}, {"vmcall", "ctx"},
 		{"risorcall", "risoropt"}, {"risorcall", "ctx"},
+		// keep: R2 names no OS at all (risor.Eval / risor.Call with WithVM only): the OS the VM was given
+		// for R1 keeps serving (only with r1 = optA)
+		{"runcode", "keep"}, {"vmcall", "keep"}, {"risorcall", "keep"},
 	}
 )
 
@@ -51,6 +54,9 @@ func reuseContexts() []string {
 	var out []string
 	for _, r1 := range rR1 {
 		for _, es := range rEntrySupply {
+			if es[1] == "keep" && r1 != "optA" {
+				continue
+			}
 			for _, in := range rInner {
 				out = append(out, "r:"+r1+":"+es[1]+":"+es[0]+":"+in)
 			}
@@ -206,7 +212,7 @@ func executeReuse(v variant, cx string, A, B *recOS) (got, errText, r1Err string
 	}
 	// runR2Code loads R2's code into the VM the way the supply form dictates
 	runR2Code := func() (object.Object, error) {
-		if supply == "risoropt" {
+		if supply == "risoropt" || supply == "keep" {
 			return risor.Eval(ctx2, main, ropts...)
 		}
 		code, err := compileSrc(bg, main, cfg.CompilerOpts())
@@ -273,7 +279,14 @@ func runReuse(idx int, c kase, detail bool) (out caseOut) {
 	server, log := B, bLog
 	out.Served = "B"
 	both := r1 == "optA" && supply == "ctx"
+	keep := supply == "keep"
 	switch {
+	case keep:
+		// nothing names an OS for R2: the VM's own OS (A) has to serve it
+		server, log, out.Served = A, aNew, "A"
+		if len(bLog) > 0 {
+			addFail("keep-wrong-os", "an OS that was never given to the VM served calls", strings.Join(bLog, "; "), "nothing")
+		}
 	case len(aNew) > 0 && both && len(bLog) == 0:
 		server, log, out.Served = A, aNew, "A"
 	case len(aNew) > 0 && both:
@@ -302,8 +315,12 @@ func runReuse(idx int, c kase, detail bool) (out caseOut) {
 		if len(aNew) > 0 {
 			obs += " the EARLIER run's OS A logged during R2: [" + strings.Join(aNew, "; ") + "]"
 		}
-		addFail("not-served", "on a reused VM the OS supplied for the second run did not log "+miss, obs+" answer: "+got+" "+errText, "B's log contains "+strings.Join(v.Log, "; "))
-	} else if len(aNew) > 0 && !(both && server == A) {
+		what := "on a reused VM the OS supplied for the second run did not log "
+		if keep {
+			what = "on a reused VM whose second run names no OS, the OS the VM was given did not log "
+		}
+		addFail("not-served", what+miss, obs+" answer: "+got+" "+errText, "B's log contains "+strings.Join(v.Log, "; "))
+	} else if len(aNew) > 0 && !(both && server == A) && !keep {
 		addFail("stale-os", "the OS of the earlier run logged calls of the second run", strings.Join(aNew, "; "), "A's log gets nothing new")
 	}
 	if !matchWant(v.Want, got) {
